@@ -386,6 +386,92 @@ func c15Walk(c *ctx, u *universe, worlds, ops, emitProb, maxCases int) {
 }
 
 // ---------------------------------------------------------------------------------------------
+// family 3: one creator, hundreds of consecutive ESDTNFTCreate calls of one token (nonces beyond one byte: 255, 256,
+// 257, 512 ...), scan after each; then transfers / burns / quantity changes of the nonces around the byte boundaries,
+// same shard and cross shard with delivery.  Every issued nonce must still be present under its own key afterwards.
+// ---------------------------------------------------------------------------------------------
+func c15ManyCreates(c *ctx, u *universe, creates int) {
+	c05SetExecStream(c, c05ProjState)
+	w := u.stdWorld(2, 1, distinctGas(13, 2))
+	st := c15NewState()
+	A, B, C := u.U[0], u.U[1], u.U[2]
+	T := u.NFTs[1]
+	var hist []string
+	do := func(op *worldOp, emit bool) *stepResult {
+		key := c05Hash("many-creates", fmt.Sprint(len(hist)), op.String())
+		sr := w.step(op)
+		hist = append(hist, op.String())
+		if sr.Skipped {
+			return sr
+		}
+		c.count(fmt.Sprintf("call/%s/%s", sr.Call.Fn, statusName(sr.Res.Status)))
+		c.count("family/many-creates")
+		c.note(key, true)
+		st.after(sr)
+		c15Scan(c, w, st, sr, hist)
+		if emit {
+			c.addExecCase(w, sr.Call, sr.Res)
+		}
+		return sr
+	}
+	sys := func(rcpt []byte, fn string, args ...[]byte) *stepResult {
+		return do(&worldOp{Kind: opSys, Call: &callSpec{Shard: w.shardOf(rcpt), Fn: fn, Caller: u.SC, Rcpt: rcpt, Args: args, Value: big.NewInt(0), Dst: true, FailAt: -1}}, false)
+	}
+	tx := func(emit bool, caller, rcpt []byte, fn string, args ...[]byte) *stepResult {
+		return do(&worldOp{Kind: opTx, Call: w.mkCall(w.shardOf(caller), fn, caller, rcpt, args, bigGas)}, emit)
+	}
+	mustOK(sys(A, "ESDTSetRole", append([][]byte{T}, u.AllRoles...)...), "many-creates roles")
+	st.createGiven[string(T)] = true
+	for i := 1; i <= creates; i++ {
+		emit := i <= 2 || (i >= 255 && i <= 257)
+		sr := tx(emit, A, A, "ESDTNFTCreate", T, be(3), []byte(fmt.Sprintf("n%d", i)), be(10), []byte(fmt.Sprintf("h%d", i)), []byte("at"), []byte("u"))
+		mustOK(sr, "many-creates create")
+		if got := c05U64(sr.Res.Out.ReturnData[0]); got != uint64(i) {
+			c.fail("monitor", "inv-counter-below-issued/ESDTNFTCreate", fmt.Sprintf("create number %d returned nonce %d", i, got), c05Replay(sr, hist))
+		}
+	}
+	// every issued nonce is present under its own key with its own metadata nonce and the created quantity
+	present := func(stage string, except map[uint64]bool) {
+		a := w.shards[0].account(A)
+		for n := uint64(1); n <= uint64(creates); n++ {
+			if except[n] {
+				continue
+			}
+			raw, ok := a.storage[c05P+string(T)+string(be(n))]
+			t, err := c05DecodeToken(raw)
+			if !ok || err != nil || t.TokenMetaData == nil || t.TokenMetaData.Nonce != n || t.Value == nil || t.Value.Cmp(big.NewInt(3)) != 0 {
+				c.fail("monitor", "inv-entry-nonce-key/ESDTNFTCreate", fmt.Sprintf("%s: NFT %q nonce %d is not intact under its own key (present=%v)", stage, T, n, ok), map[string]interface{}{"history": histReplay(hist)})
+				return
+			}
+		}
+	}
+	present("after the creates", nil)
+	touched := map[uint64]bool{}
+	for _, n := range []uint64{1, 2, 255, 256, 257, 511, 512, 513, uint64(creates)} {
+		if n > uint64(creates) {
+			continue
+		}
+		touched[n] = true
+		emit := n == 256
+		tx(emit, A, A, "ESDTNFTTransfer", T, be(n), be(1), B)
+		tx(false, A, A, "ESDTNFTTransfer", T, be(n), be(1), C)
+		tx(false, A, A, "ESDTNFTAddQuantity", T, be(n), be(4))
+		tx(false, A, A, "ESDTNFTBurn", T, be(n), be(1))
+		tx(false, A, A, "ESDTNFTAddURI", T, be(n), []byte("u2"))
+		tx(false, A, A, "MultiESDTNFTTransfer", C, be(1), T, be(n), be(1))
+		for len(w.inflight) > 0 {
+			m := w.inflight[0]
+			if sr := do(&worldOp{Kind: opDeliver, ID: m.ID, Gas: m.GasLimit}, false); sr.Skipped || sr.Res.Status != 0 {
+				break
+			}
+		}
+		tx(false, B, B, "ESDTNFTTransfer", T, be(n), be(1), A)
+	}
+	present("after the transfers", touched)
+	c.count(fmt.Sprintf("c15/many-creates/creates-%d", creates))
+}
+
+// ---------------------------------------------------------------------------------------------
 // family 2: exhaustive enumeration of all operation sequences up to a depth over a tiny universe
 // (2 shards, 3 accounts: A, B on shard 0 and C on shard 1, 2 tokens: F fungible and N semi-fungible, a few amounts)
 // ---------------------------------------------------------------------------------------------
@@ -628,7 +714,7 @@ func init() {
 		// the run is sequential; exec reads runtime.MemStats around every call (stop-the-world), which is 2-3x
 		// cheaper with one P
 		runtime.GOMAXPROCS(1)
-		c.rep.Rule = "After EVERY step of every history every account of every shard is scanned on the real storage: each key with prefix ELROND is in exactly one of the families ELRONDesdt+token(+nonce), ELRONDroleesdt+token, ELRONDnonce+token; every ELRONDesdt entry decodes with the production decoder (Reset+Unmarshal), except the raw 2-byte pause flags 0000/0100 in the system account (fourth entry kind); value present and > 0, or fungible with value 0 and the frozen flag; type 0 iff no metadata; an entry with metadata has nonce > 0 and its key ends with the big-endian bytes of that nonce; properties in {empty, 0000, 0100}; role lists decode, are non-empty and hold no duplicates; counters are canonical big-endian 1..2^64-1; the counter of every holder of the create role is >= every nonce ever returned by ESDTNFTCreate for the token. Histories: (a) random walks of hundreds of admitted operations over 1-3 shard worlds (transfers, supply, system contract, account functions, deliveries / refunds, hostile calls) under the disciplines the property names: no role set twice without unset, one creator per token (create role set once, then only moved by hand-over at its current holder), no forged destination-side NFT / multi / hand-over execution, no re-delivery (F9 -> C07), system-account address not in token traffic (F8 -> C02); (b) exhaustive enumeration of ALL sequences up to depth 3 (thorough 4) over an alphabet of ~58 operations in a tiny universe (2 shards, 3 accounts, 2 tokens) from three start states; a rejected call is rolled back entirely, so its subtree equals a shorter explored sequence and is not entered. The scan is self-tested on pause flags and on hand-made ill-formed cells. Executed calls and whole histories are replayed by the Coq model (status + full post-state; final world, in-flight and failed sets). distinct = distinct (world state, operation) / distinct sequence."
+		c.rep.Rule = "After EVERY step of every history every account of every shard is scanned on the real storage: each key with prefix ELROND is in exactly one of the families ELRONDesdt+token(+nonce), ELRONDroleesdt+token, ELRONDnonce+token; every ELRONDesdt entry decodes with the production decoder (Reset+Unmarshal), except the raw 2-byte pause flags 0000/0100 in the system account (fourth entry kind); value present and > 0, or fungible with value 0 and the frozen flag; type 0 iff no metadata; an entry with metadata has nonce > 0 and its key ends with the big-endian bytes of that nonce; properties in {empty, 0000, 0100}; role lists decode, are non-empty and hold no duplicates; counters are canonical big-endian 1..2^64-1; the counter of every holder of the create role is >= every nonce ever returned by ESDTNFTCreate for the token. Histories: (a) random walks of hundreds of admitted operations over 1-3 shard worlds (transfers, supply, system contract, account functions, deliveries / refunds, hostile calls) under the disciplines the property names: no role set twice without unset, one creator per token (create role set once, then only moved by hand-over at its current holder), no forged destination-side NFT / multi / hand-over execution, no re-delivery (F9 -> C07), system-account address not in token traffic (F8 -> C02); (b) one creator issuing 520 (thorough 1030) consecutive ESDTNFTCreate of one token, scan after each, then transfers / multi-transfers / burns / quantity and URI changes of nonces 1, 2, 255, 256, 257, 511, 512, 513 (same and cross shard, delivered) and a check that every issued nonce is still intact under its own key; (c) exhaustive enumeration of ALL sequences up to depth 3 (thorough 4) over an alphabet of ~58 operations in a tiny universe (2 shards, 3 accounts, 2 tokens) from three start states; a rejected call is rolled back entirely, so its subtree equals a shorter explored sequence and is not entered. The scan is self-tested on pause flags and on hand-made ill-formed cells. Executed calls and whole histories are replayed by the Coq model (status + full post-state; final world, in-flight and failed sets). distinct = distinct (world state, operation) / distinct sequence."
 		c.rep.Exhaustive = false
 		// history files are evaluated in parallel: keep them small
 		c.withStream("hist", histHeader, "hcase", "hmismatches cases", 2, func() {})
@@ -640,6 +726,11 @@ func init() {
 			worlds, ops, prob, max = 40, 600, 12, 3000
 		}
 		c15Walk(c, u, worlds, ops, prob, max)
+		if wide {
+			c15ManyCreates(c, u, 1030)
+		} else {
+			c15ManyCreates(c, u, 520)
+		}
 		c15Enumerate(c, u, depth, emitExec, emitHist)
 		keys := make([]string, 0)
 		for k := range c.rep.Dist {
